@@ -57,8 +57,10 @@ class ExprMixin:
                 return VBool(len(o.data) > 0)
             if o.kind == "obj":
                 return VBool(True)
+            self.tag_havoc(st, "truth of unknown object")
             return VBool(z3.Bool(fresh_name("truth")))
         if isinstance(v, VUnk):
+            self.tag_havoc(st, f"truth of unknown {v.tag}"[:60])
             return VBool(z3.Bool(fresh_name("truth")))
         raise Unsupported(f"truth of {v!r}")
 
@@ -554,9 +556,11 @@ class ExprMixin:
             return res
         if isinstance(a, VUnk) or isinstance(b, VUnk):
             if op in ("Is", "IsNot") and (isinstance(a, VNoneT) or isinstance(b, VNoneT)):
+                self.tag_havoc(st, "unknown is None", node)
                 return [(st, VBool(z3.Bool(fresh_name("isnone"))))]
             if op not in ("Is", "IsNot"):
                 self.exc_any(st.fork(), f"{self.loc(node)} compare unknown")
+            self.tag_havoc(st, "compare unknown", node)
             return [(st, VBool(z3.Bool(fresh_name("cmp"))))]
         if op in ("Is", "IsNot") and not (isinstance(a, VNoneT) or isinstance(b, VNoneT)):
             if isinstance(a, (VExt, VStr, VInt)) or isinstance(b, (VExt, VStr, VInt)):
@@ -611,6 +615,7 @@ class ExprMixin:
         if isinstance(container, VUnk) or isinstance(item, VUnk) or \
                 (isinstance(container, VRef) and st.obj(container.ref).kind == "unk"):
             self.exc_any(st.fork(), f"{self.loc(node)} in unknown")
+            self.tag_havoc(st, "in unknown", node)
             return [(st, VBool(z3.Bool(fresh_name("in"))))]
         self.unsupported(node, f"`in` on {container!r}")
 
